@@ -171,12 +171,26 @@ def build(form, xs, ys):
     if form == "copy":
         return CurveFitting(CurveFitting(list(xs), list(ys)))
     if form == "set":
-        cf = CurveFitting([1.0, 2.0, 4.0], [3.0, -1.0, 2.0])
-        cf.set(list(xs), list(ys))
-        return cf
+        return reused(xs, ys, degenerate_prior=(len(xs) % 2 == 0))
     if form == "yonly":
         return CurveFitting(list(ys))
     raise AssertionError(form)
+
+
+def reused(xs, ys, degenerate_prior):
+    """An object that has already been used on other data (ordinary or degenerate) and is then
+    re-loaded through set(): the documented alternative to the constructor."""
+    if degenerate_prior:
+        cf = CurveFitting([5.0, 5.0, 5.0], [3.0, -1.0, 2.0])
+    else:
+        cf = CurveFitting([1.0, 2.0, 4.0, 7.0], [3.0, -1.0, 2.0, 0.5])
+    for m in (cf.linear_fitting, cf.quadratic_fitting, cf.correlation_coeff):
+        try:
+            m()
+        except ZeroDivisionError:
+            pass
+    cf.set(list(xs), list(ys))
+    return cf
 
 
 def call_fit(cf, kind, specs):
@@ -450,7 +464,8 @@ def body_corr(case):
 def body_degenerate(case):
     kind = case["dkind"]
     xs, ys = list(case["x"]), list(case["y"])
-    cf = CurveFitting(xs, ys)
+    # every other case goes through an object already used on ordinary data and re-loaded by set()
+    cf = reused(xs, ys, degenerate_prior=False) if len(ys) % 2 else CurveFitting(xs, ys)
     if kind == "all_x_equal_linear":
         call, site = cf.linear_fitting, "CurveFitting.linear_fitting"
     elif kind in ("all_x_equal_quadratic", "two_distinct_x_quadratic"):
